@@ -13,6 +13,15 @@ from .. import facts, hirq, traverse
 from ..hirq import walk, kind, callee, where, peel, PathEnum, exits
 
 LEVEL = "other"
+
+# The validator analyses WHITESPACE and COMMENT in isolation and never models the implicit skip between the operands of
+# their own bodies. That is sound only because both back-ends run those bodies atomically (no skipping inside): C02's RULE
+# rule decides the wrapper each back-end puts around every (modifier x WHITESPACE/COMMENT) rule; it is re-run here.
+DEPENDS = [
+    ("C02", {"only_rules": ["RULE"],
+             "why": "termination of the implicit-skip loop relies on WHITESPACE/COMMENT bodies running under "
+                    "atomic(Atomic) in the generator and the VM"}),
+]
 PEXPR = "pest_meta::parser::ParserExpr"
 CHECK = "pest_meta::validator::left_recursion::check_expr"
 NP = "pest_meta::validator::is_non_progressing"
@@ -89,6 +98,7 @@ def run(rep, tier):
         trav(rep, meta, sfx)
         nullable(rep, meta, sfx)
         trace(rep, meta, sfx)
+        trace_entry(rep, meta, sfx)
         resolve(rep, meta, sfx)
         wiring(rep, meta, f, sfx)
 
@@ -414,6 +424,43 @@ def trace(rep, meta, sfx):
                         "a path pushes a rule on the trace, recurses, and returns without popping it: the trace is "
                         "also the visited set and `trace.last()`, so later siblings are analysed against the wrong "
                         "rule and left recursion behind an already-visited guard goes unreported")
+
+
+def trace_entry(rep, meta, sfx):
+    r = rep.rule("C06.TRACE-ENTRY" + sfx, 5,
+                 "every top-level question `is_non_failing / is_non_progressing(expr)` asked by a validation pass starts "
+                 "from an empty trace: the helpers answer `false` for a rule already on the trace, so a pre-loaded trace "
+                 "silently accepts a nullable rule repeated inside its own definition")
+    # the one place that may seed the trace: the left-recursion walk asks about the rule it is standing in
+    seeded_ok = {CHECK: "seeds the trace with trace.last(): reaching the current rule again is left recursion, "
+                        "reported by the walk itself"}
+    for fn in meta.bodies:
+        if "::tests::" in fn["path"] or fn.get("exp") or fn["path"] in (NP, NF):
+            continue
+        lets = hirq.lets(fn["body"])
+        modes = hirq.binding_modes(fn)
+        for n in walk(fn["body"]):
+            if kind(n) == "Call" and callee(n) in (NP, NF):
+                key = "%s->%s" % (fn["path"].replace("pest_meta::validator::", ""), callee(n).split("::")[-1])
+                if fn["path"] in seeded_ok:
+                    r.instance(key + ":seeded", where(n), seeded_ok[fn["path"]])
+                    continue
+                r.instance(key, where(n))
+                a = peel(n["args"][-1])
+                d = 0
+                while d < 6 and kind(a) == "Path" and a.get("res") == "local" and a["id"] in lets:
+                    if modes.get(a["id"]) and any(
+                            hirq.local_id(x.get("recv", {})) == a["id"] for x in walk(fn["body"])
+                            if kind(x) == "MethodCall" and x.get("m") in ("push", "extend", "insert", "append")):
+                        break
+                    a = peel(lets[a["id"]][0])
+                    d += 1
+                if not (kind(a) == "Call" and callee(a) in ("alloc::vec::Vec::new", "core::default::Default::default",
+                                                             "alloc::vec::Vec::with_capacity")):
+                    r.violation(key, where(n),
+                                "%s asks %s with a trace that is not freshly empty (%s): e.g. "
+                                "`list = { (\"[\" ~ list* ~ \"]\")? }` is then accepted and `list*` iterates forever on "
+                                "the empty match" % (fn["name"], callee(n).split("::")[-1], hirq.expr_text(n["args"][-1])[:80]))
 
 
 def conj(n):
